@@ -239,6 +239,7 @@ static void Range_Del(var self) {
 static void Range_Assign(var self, var obj) {
   struct Range* r = self;
   struct Range* o = cast(obj, Range);
+  if (r->value is NULL) { r->value = new(Int); }
   assign(r->value, o->value);
   r->start = o->start;
   r->stop = o->stop;
@@ -533,6 +534,7 @@ static void Slice_Assign(var self, var obj) {
   struct Slice* s = self;
   struct Slice* o = cast(obj, Slice);
   s->iter = o->iter;
+  if (s->range is NULL) { s->range = new(Range); }
   assign(s->range, o->range);
 }
 
@@ -751,6 +753,8 @@ static void Zip_Del(var self) {
 static void Zip_Assign(var self, var obj) {
   struct Zip* z = self;
   struct Zip* o = cast(obj, Zip);
+  if (z->iters  is NULL) { z->iters  = new(Tuple); }
+  if (z->values is NULL) { z->values = new(Tuple); }
   assign(z->iters, o->iters);
   /* One value slot per input. The slots of a Zip that has been iterated hold
   ** cursors (among them Terminal), so they are not a Tuple that can be copied */
